@@ -181,12 +181,14 @@ func (s *sched) caseReady(sc *selCase, self *Thread) bool {
 		if c.n < c.cap {
 			return true
 		}
-		return len(s.partners(c, false, self)) > 0
+		// rendez-vous only exists on unbuffered channels: a receiver parked on a buffered
+		// channel will take from the buffer when it is scheduled
+		return c.cap == 0 && len(s.partners(c, false, self)) > 0
 	}
 	if c.n > 0 || c.closed {
 		return true
 	}
-	return len(s.partners(c, true, self)) > 0
+	return c.cap == 0 && len(s.partners(c, true, self)) > 0
 }
 
 // Wait performs the select: it returns the index of the chosen case, or -1 for default.
